@@ -484,7 +484,9 @@ impl World {
                 let a = attribute(&v, &mode);
                 self.run_props.try_borrow().map(|p| p.is_empty() || p.iter().any(|x| x == a)).unwrap_or(true)
             };
-            let fatal = matches!(prop, "C01" | "C03" | "C20") || matches!(oracle, "drop_of_uninit" | "drop_of_garbage") || oracle.contains("dead") || oracle.contains("damaged") || oracle.contains("panic");
+            // (a box that is released late or never, and a zero-sized request, corrupt nothing)
+            let harmless = matches!(oracle, "box_not_released" | "leak_at_end" | "zero_size_alloc");
+            let fatal = (matches!(prop, "C01" | "C03" | "C20") && !harmless) || matches!(oracle, "drop_of_uninit" | "drop_of_garbage") || oracle.contains("dead") || oracle.contains("damaged") || oracle.contains("panic");
             if own || fatal {
                 self.stop_now.set(true);
             }
